@@ -128,3 +128,128 @@ pub fn spec_item(ts: Ts, element: u16, len: u32) -> [u8; 8] {
     let l = put32(ts, len);
     [g[0], g[1], e[0], e[1], l[0], l[1], l[2], l[3]]
 }
+
+// ------------------------------------------------------------------------
+// Symbolic data dictionary: the callee behind `D: DataDictionary` is
+// represented by its contract only — it answers one (arbitrary, fixed)
+// `Option<entry>` for the tag that is looked up.
+use dicom_core::dictionary::{DataDictionary, DataDictionaryEntryRef, TagRange, VirtualVr};
+use dicom_core::Tag;
+
+pub struct SymDict {
+    pub entry: Option<DataDictionaryEntryRef<'static>>,
+}
+
+pub fn any_virtual_vr() -> VirtualVr {
+    let k: u8 = kani::any();
+    kani::assume(k < 5);
+    match k {
+        0 => VirtualVr::Exact(any_vr().0),
+        1 => VirtualVr::Xs,
+        2 => VirtualVr::Ox,
+        3 => VirtualVr::Px,
+        _ => VirtualVr::Lt,
+    }
+}
+
+impl SymDict {
+    pub fn any_for(tag: Tag) -> (Self, Option<VirtualVr>) {
+        if kani::any() {
+            let vvr = any_virtual_vr();
+            (
+                SymDict { entry: Some(DataDictionaryEntryRef { tag: TagRange::Single(tag), alias: "X", vr: vvr }) },
+                Some(vvr),
+            )
+        } else {
+            (SymDict { entry: None }, None)
+        }
+    }
+}
+
+impl DataDictionary for SymDict {
+    type Entry = DataDictionaryEntryRef<'static>;
+    fn by_tag(&self, _tag: Tag) -> Option<&Self::Entry> {
+        self.entry.as_ref()
+    }
+    fn by_name(&self, _name: &str) -> Option<&Self::Entry> {
+        None
+    }
+}
+
+/// Documented relaxation of a virtual VR (dictionary crate docs).
+pub fn spec_relaxed(v: VirtualVr) -> VR {
+    match v {
+        VirtualVr::Exact(vr) => vr,
+        VirtualVr::Xs => VR::US,
+        _ => VR::OW,
+    }
+}
+
+/// look a two-byte code up in the PS3.5 table (Table 7.1-1/7.1-2: true = 16-bit length form)
+pub fn spec_vr_of_code(code: [u8; 2]) -> Option<(VR, bool)> {
+    match &code {
+        b"AE" => Some((VR::AE, true)),
+        b"AS" => Some((VR::AS, true)),
+        b"AT" => Some((VR::AT, true)),
+        b"CS" => Some((VR::CS, true)),
+        b"DA" => Some((VR::DA, true)),
+        b"DS" => Some((VR::DS, true)),
+        b"DT" => Some((VR::DT, true)),
+        b"FL" => Some((VR::FL, true)),
+        b"FD" => Some((VR::FD, true)),
+        b"IS" => Some((VR::IS, true)),
+        b"LO" => Some((VR::LO, true)),
+        b"LT" => Some((VR::LT, true)),
+        b"OB" => Some((VR::OB, false)),
+        b"OD" => Some((VR::OD, false)),
+        b"OF" => Some((VR::OF, false)),
+        b"OL" => Some((VR::OL, false)),
+        b"OV" => Some((VR::OV, false)),
+        b"OW" => Some((VR::OW, false)),
+        b"PN" => Some((VR::PN, true)),
+        b"SH" => Some((VR::SH, true)),
+        b"SL" => Some((VR::SL, true)),
+        b"SQ" => Some((VR::SQ, false)),
+        b"SS" => Some((VR::SS, true)),
+        b"ST" => Some((VR::ST, true)),
+        b"SV" => Some((VR::SV, false)),
+        b"TM" => Some((VR::TM, true)),
+        b"UC" => Some((VR::UC, false)),
+        b"UI" => Some((VR::UI, true)),
+        b"UL" => Some((VR::UL, true)),
+        b"UN" => Some((VR::UN, false)),
+        b"UR" => Some((VR::UR, false)),
+        b"US" => Some((VR::US, true)),
+        b"UT" => Some((VR::UT, false)),
+        b"UV" => Some((VR::UV, false)),
+        _ => None,
+    }
+}
+
+pub fn get16(ts: Ts, b: &[u8]) -> u16 {
+    match ts {
+        Ts::ExplicitBe => ((b[0] as u16) << 8) | b[1] as u16,
+        _ => ((b[1] as u16) << 8) | b[0] as u16,
+    }
+}
+pub fn get32(ts: Ts, b: &[u8]) -> u32 {
+    match ts {
+        Ts::ExplicitBe => ((b[0] as u32) << 24) | ((b[1] as u32) << 16) | ((b[2] as u32) << 8) | b[3] as u32,
+        _ => ((b[3] as u32) << 24) | ((b[2] as u32) << 16) | ((b[1] as u32) << 8) | b[0] as u32,
+    }
+}
+
+/// What PS3.5 7.1 says a decoder must read from the first bytes of `src`
+/// (explicit codecs): (group, element, vr or None if the code is undefined, len, header size)
+pub fn spec_decode_explicit(ts: Ts, src: &[u8; 12]) -> (u16, u16, Option<VR>, u32, usize) {
+    let g = get16(ts, &src[0..2]);
+    let e = get16(ts, &src[2..4]);
+    if g == 0xFFFE {
+        return (g, e, Some(VR::UN), get32(ts, &src[4..8]), 8);
+    }
+    match spec_vr_of_code([src[4], src[5]]) {
+        Some((vr, true)) => (g, e, Some(vr), get16(ts, &src[6..8]) as u32, 8),
+        Some((vr, false)) => (g, e, Some(vr), get32(ts, &src[8..12]), 12),
+        None => (g, e, None, get32(ts, &src[8..12]), 12),
+    }
+}
